@@ -1,6 +1,6 @@
 (** C14 — library imports expose exactly the requested bindings: property theorems only. *)
 From Coq Require Import String List.
-From ChibiV Require Import C14.Sx C14.World C14.Spec C14.Encode C14.SpecProofs Gen.C14_ImportCode C14.Proofs.
+From ChibiV Require Import C14.Sx C14.World C14.Spec C14.Encode C14.SpecProofs Gen.C14_ImportCode C14.Refine C14.Proofs.
 
 Theorem resolve_import_refines_spec : forall W i f,
   wf_iset i -> isize i + max_exports W < f -> chibi_ok W i ->
@@ -28,6 +28,11 @@ Theorem denote_is_the_relation : forall W i l, denote W i = Some l -> unambiguou
   forall n m, In (n, m) l <-> denotes W i n m.
 Proof. exact denote_exact. Qed.
 Print Assumptions denote_is_the_relation.
+
+Theorem export_rewriting_spec : forall W' e,
+  exists v, rewrite_export W' (enc_espec e) = Ok v /\ abs_id v = Some (espec_pair e).
+Proof. exact C14.Refine.rewrite_export_spec. Qed.
+Print Assumptions export_rewriting_spec.
 
 (** environments (eval.c sexp_env_import_op, sexp_env_cell) *)
 From ChibiV Require Import C14.Env C14.EnvProofs.
@@ -67,10 +72,28 @@ Theorem env_stable : forall d fuel st x st' o l e,
 Proof. exact env_stable_proof. Qed.
 Print Assumptions env_stable.
 
+Theorem load_done_has_env : forall d f st l st',
+  load_module f d st l = (st', Done) -> exists e, env_of st' l = Some e.
+Proof. exact load_done_has_env_proof. Qed.
+Print Assumptions load_done_has_env.
+
+Theorem failed_load_no_env : forall d f st l st' o,
+  J st -> NoDup (evals st) -> load_module f d st l = (st', o) -> o <> Done ->
+  env_of st l = None -> env_of st' l = None /\ body_evals st' l = body_evals st l.
+Proof. exact failed_load_no_env_proof. Qed.
+Print Assumptions failed_load_no_env.
+
 Theorem self_reference_detected : forall d f st l,
   inprog st l -> load_module (S f) d st l = (st, SelfReference l).
 Proof. exact self_reference_detected_proof. Qed.
 Print Assumptions self_reference_detected.
+
+From Coq Require Import Relations.
+From ChibiV Require Import C14.LoadCycle.
+Theorem cyclic_import_detected : forall d l f,
+  clos_trans_1n _ (imports d) l l -> snd (load_module f d init_state l) <> Done.
+Proof. exact cyclic_import_detected_proof. Qed.
+Print Assumptions cyclic_import_detected.
 
 Theorem cyclic_import_detected_bounded : forall g l, In g graphs3 -> In l (0 :: 1 :: 2 :: 3 :: nil) ->
   check_single (defs_of g) l = true.
